@@ -59,6 +59,20 @@ def corpus(tier):
                         out.append(('%s.t%d.h%d.chx.b%d' % (m.decode(), ti, hi, bi),
                                     httpgen.build('request', start, hs, 'chunked', body, (len(body),),
                                                   hexcase='upper', lead_zero=True, ext=b';e=1')))
+    # framing header names and the transfer-coding name in other casings (both are case-insensitive)
+    for fcase, tev in (('canonical', b'Chunked'), ('canonical', b'CHUNKED'), ('lower', b'chunked'), ('upper', b'CHUNKED'),
+                       ('mixed', b'cHUNKED'), ('lower', b'Chunked')):
+        for bi, body in enumerate((b'', b'abc', b'x' * 70)):
+            for hi, hs in enumerate(([HDRS[0]], [HDRS[0], HDRS[1], HDRS[3]])):
+                start = (b'POST', b'http://h.test/case', b'HTTP/1.1')
+                out.append(('POST.case-%s-%s.h%d.ch.b%d' % (fcase, tev.decode(), hi, bi),
+                            httpgen.build('request', start, hs, 'chunked', body, (1, len(body) - 1) if body else (),
+                                          framing_case=fcase, te_value=tev)))
+                if tev.lower() == tev or fcase != 'canonical':
+                    out.append(('POST.case-%s.h%d.cl.b%d' % (fcase, hi, bi),
+                                httpgen.build('request', start, hs, 'cl', body, framing_case=fcase)))
+    seen = set()
+    out = [x for x in out if not (x[0] in seen or seen.add(x[0]))]
     # lower-case framing header names as sent by some clients
     for body in (b'abc',):
         hs = [HDRS[0]]
